@@ -8,13 +8,15 @@
 (*   class Subject: i: int, oi: Optional[int], s: str, os: Optional[str], b: bool,              *)
 (*                  xs: List[int], oxs: Optional[List[int]], it: Item, oit: Optional[Item],     *)
 (*                  its: List[Item], e: Color, oe: Optional[Color]                              *)
-(*   Names = {"a", "ab"};  Reds = {Color.Red}                                                   *)
+(*   Names = {"a", "ab", "\u202f"};  Reds = {Color.Red}                                                   *)
 (*   is_abc(text) = match(r"^a[bc]*$", text) is not None                                        *)
 (*   gt_zero(x) = x > 0;  in_range(x, lo): d = x - lo; return d >= 0                            *)
 EXTENDS Expr
 
 a_ == <<97>>
 ab_ == <<97, 98>>
+\* U+202F NARROW NO-BREAK SPACE: not printable for Python, above 0xFF (a typographic space in real descriptions and values)
+nnbsp_ == <<8239>>
 
 PropOrder == <<"i", "oi", "s", "os", "b", "xs", "oxs", "it", "oit", "its", "e", "oe">>
 AllProps == {PropOrder[k] : k \in 1..Len(PropOrder)}
@@ -37,7 +39,7 @@ Red == EnumV("Color", "Red")
 Green == EnumV("Color", "Green")
 
 G0 ==
-    [vals |-> [Names |-> SetV({StrV(a_), StrV(ab_)}), Reds |-> SetV({Red}), Color |-> EnumTypeV("Color", {"Red", "Green"})],
+    [vals |-> [Names |-> SetV({StrV(a_), StrV(ab_), StrV(nnbsp_)}), Reds |-> SetV({Red}), Color |-> EnumTypeV("Color", {"Red", "Green"})],
      funcs |-> [is_abc |-> [kind |-> "pattern", re |-> RCat(<<RChr(97), RStar(RSet(<<98, 99>>))>>)],
                 gt_zero |-> [kind |-> "transp", params |-> <<"x">>, body |-> <<Return(Cmp(">", Name("x"), IntC(0)))>>],
                 in_range |-> [kind |-> "transp", params |-> <<"x", "lo">>,
@@ -70,7 +72,7 @@ ItemListsSmall == <<ListV(<<>>), ListV(<<ItemsSmall("its0")[1]>>), ListV(<<Items
 DomFull ==
     [i |-> <<IntV(-1), IntV(0), IntV(1), IntV(2)>>,
      oi |-> <<NoneV, IntV(-1), IntV(0), IntV(1), IntV(2)>>,
-     s |-> <<StrV(<<>>), StrV(a_), StrV(ab_)>>,
+     s |-> <<StrV(<<>>), StrV(a_), StrV(ab_), StrV(nnbsp_)>>,
      os |-> <<NoneV, StrV(<<>>), StrV(a_), StrV(ab_)>>,
      b |-> <<BoolV(FALSE), BoolV(TRUE)>>,
      xs |-> IntLists,
@@ -141,7 +143,7 @@ RedC == Mem(Name("Color"), "Red")
 Names == Name("Names")
 Reds == Name("Reds")
 
-Consts == {IntC(0), IntC(1), StrC(a_), BoolC(TRUE), RedC}
+Consts == {IntC(0), IntC(1), StrC(a_), StrC(nnbsp_), BoolC(TRUE), RedC}
 T1 == {P(p) : p \in AllProps}
 NestedMems == {Mem(P("it"), "v"), Mem(P("it"), "ov"), Mem(P("oit"), "v"), Mem(P("oit"), "ov")}
 T2 == NestedMems \cup {Mem(P("i"), "v"), Mem(P("its"), "v"), Mem(P("it"), "zz")}
@@ -150,6 +152,10 @@ T2 == NestedMems \cup {Mem(P("i"), "v"), Mem(P("its"), "v"), Mem(P("it"), "zz")}
       \cup {Idx(P("xs"), P("i")), Idx(P("xs"), IntC(-1)), Idx(P("xs"), P("s")), Idx(P("xs"), P("oi")), Idx(P("xs"), LenOf(P("xs"))), Idx(P("xs"), P("b"))}
       \cup {Add(P(p), IntC(1)) : p \in {"i", "oi", "s", "b"}}
       \cup {Sub(LenOf(P("xs")), IntC(1)), Sub(P("i"), P("oi")), Add(LenOf(P("s")), P("i")), Add(P("s"), P("s"))}
+      \* arithmetic nested on the right of a subtraction / addition (a - (b - c) is not a - b - c), also as an index
+      \cup {Sub(P("i"), Sub(P("i"), IntC(1))), Sub(P("i"), Add(P("i"), IntC(1))), Sub(LenOf(P("xs")), Sub(P("i"), IntC(1))),
+            Add(P("i"), Sub(P("i"), IntC(1))), Sub(Sub(P("i"), IntC(1)), IntC(1)), Sub(IntC(2), Sub(LenOf(P("s")), P("i"))),
+            Idx(P("xs"), Sub(LenOf(P("xs")), Sub(IntC(2), IntC(1)))), Idx(P("xs"), Sub(IntC(1), Sub(IntC(2), LenOf(P("xs")))))}
       \cup {Mem(Idx(P("its"), IntC(0)), "v"), Mem(Idx(P("its"), IntC(0)), "ov")}
       \cup {FStr(<<StrC(a_), P("s")>>), FStr(<<P("i")>>), FStr(<<P("os")>>), FStr(<<P("s"), StrC(<<98>>), P("i")>>)}
 Terms == T1 \cup T2 \cup Consts
@@ -164,7 +170,8 @@ A_cmp(wide) == {Cmp(op, t, c) : op \in CmpOpsFor(wide), t \in Terms, c \in CmpRi
                \cup {Cmp(op, IntC(0), t) : op \in {"<", "!="}, t \in T1}
 A_none == {IsNone(t) : t \in T1 \cup NestedMems} \cup {IsNotNone(t) : t \in T1 \cup NestedMems}
 A_in == {In(t, Names) : t \in T1} \cup {In(t, Reds) : t \in T1}
-        \cup {In(P("s"), P("s")), In(P("i"), P("xs")), In(P("i"), P("i")), In(P("s"), P("os")), In(P("i"), P("oxs")), In(RedC, Reds), In(StrC(a_), Names)}
+        \cup {In(P("s"), P("s")), In(P("i"), P("xs")), In(P("i"), P("i")), In(P("s"), P("os")), In(P("i"), P("oxs")), In(RedC, Reds), In(StrC(a_), Names),
+              In(StrC(nnbsp_), Names), In(FStr(<<P("s")>>), Names)}
 A_call == {Call("is_abc", <<t>>) : t \in T1} \cup {Call("gt_zero", <<t>>) : t \in T1}
           \cup {Call("in_range", <<P("i"), IntC(0)>>), Call("in_range", <<P("s"), IntC(0)>>), Call("in_range", <<P("oi"), P("i")>>),
                 Call("in_range", <<P("i"), P("oi")>>), Call("is_abc", <<FStr(<<StrC(a_), P("s")>>)>>), Call("gt_zero", <<LenOf(P("s"))>>),
@@ -179,7 +186,11 @@ A_quant == {QAll("x", c, it) : c \in CondX, it \in IterX} \cup {QAny("x", c, it)
            \cup {QAllR("j", XsJ, IntC(0), LenOf(P("xs"))), QAnyR("j", XsJ, IntC(0), LenOf(P("xs"))),
                  QAllR("j", XsJ, IntC(0), P("i")), QAllR("j", XsJ, P("oi"), IntC(2)), QAllR("j", XsJ, IntC(0), P("s")),
                  QAnyR("j", Cmp("<", J, LenOf(P("s"))), IntC(0), IntC(2)), QAllR("j", Cmp(">", Idx(P("oxs"), J), IntC(0)), IntC(0), IntC(1)),
-                 QAllR("j", Cmp("==", Idx(P("xs"), J), Idx(P("xs"), Sub(Sub(LenOf(P("xs")), J), IntC(1)))), IntC(0), LenOf(P("xs")))}
+                 QAllR("j", Cmp("==", Idx(P("xs"), J), Idx(P("xs"), Sub(Sub(LenOf(P("xs")), J), IntC(1)))), IntC(0), LenOf(P("xs"))),
+                 \* nested arithmetic in the bounds of a range and in an index inside it
+                 QAllR("j", XsJ, IntC(0), Sub(LenOf(P("xs")), Sub(IntC(2), IntC(1)))),
+                 QAnyR("j", Cmp(">", Idx(P("xs"), Sub(LenOf(P("xs")), Add(J, IntC(1)))), IntC(0)), Sub(IntC(1), Sub(IntC(2), IntC(1))), LenOf(P("xs"))),
+                 QAllR("j", XsJ, IntC(0), Sub(LenOf(P("xs")), Sub(P("i"), IntC(1))))}
            \cup {QAllIf("x", Cmp("<", X, IntC(3)), P("xs"), Cmp("!=", X, IntC(3))), QAnyIf("x", Cmp(">", X, IntC(1)), P("xs"), Cmp("!=", X, IntC(3))),
                  QAllIf("x", Cmp(">", Mem(X, "ov"), IntC(0)), P("its"), IsNotNone(Mem(X, "ov"))), QAllIf("x", Cmp(">", X, IntC(0)), P("oxs"), Cmp("!=", X, IntC(3)))}
 
@@ -199,7 +210,10 @@ Guarded(p, b) ==
     {And(<<IsNotNone(p), b>>), And(<<IsNone(p), b>>), And(<<b, IsNotNone(p)>>),
      Or(<<IsNone(p), b>>), Or(<<IsNotNone(p), b>>), Or(<<b, IsNone(p)>>),
      Imp(IsNotNone(p), b), Imp(IsNone(p), b), Imp(b, IsNotNone(p)),
-     Imp(Not(IsNone(p)), b), And(<<Not(IsNone(p)), b>>), And(<<P("b"), IsNotNone(p), b>>), Imp(And(<<P("b"), IsNotNone(p)>>), b)}
+     Imp(Not(IsNone(p)), b), And(<<Not(IsNone(p)), b>>), And(<<P("b"), IsNotNone(p), b>>), Imp(And(<<P("b"), IsNotNone(p)>>), b),
+     \* the mirrored forms `B or not A`: logically the implication A => B, but Python evaluates B before the guard
+     Or(<<b, Not(IsNotNone(p))>>), Or(<<b, Not(IsNone(p))>>), Or(<<And(<<P("b"), b>>), Not(And(<<IsNotNone(p), P("b")>>))>>),
+     Or(<<Not(IsNone(p)), Not(b)>>)}
 OtherPath(p) == IF p = P("oi") THEN P("os") ELSE P("oi")
 C_guard == UNION {UNION {Guarded(p, b) \cup {And(<<IsNotNone(OtherPath(p)), b>>), Imp(IsNotNone(OtherPath(p)), b)} : b \in Bodies(p)} : p \in OptPaths}
 
@@ -226,7 +240,10 @@ C_deep ==
      Imp(IsNotNone(P("oe")), Cmp("==", P("oe"), RedC)),
      Imp(IsNotNone(P("oe")), In(P("oe"), Reds)),
      And(<<Cmp(">", P("i"), IntC(0)), Cmp("<", P("i"), IntC(2)), Cmp("!=", P("s"), StrC(a_))>>),
-     Or(<<Cmp("<", P("i"), IntC(0)), Cmp(">", P("i"), IntC(1)), P("b")>>)}
+     Or(<<Cmp("<", P("i"), IntC(0)), Cmp(">", P("i"), IntC(1)), P("b")>>),
+     \* harmless mirrored implications (nothing is dereferenced before the guard)
+     Or(<<P("b"), Not(IsNotNone(P("oi")))>>), Or(<<Cmp(">", P("i"), IntC(0)), Not(P("b"))>>),
+     Or(<<Or(<<IsNone(P("oi")), OiPos>>), Not(P("b"))>>)}
 
 Bools(wide) == {P("b"), Cmp(">", P("i"), IntC(0)), Cmp("==", P("s"), StrC(a_)), IsNone(P("oi")), P("i"), P("s"), P("oi")}
                \cup (IF wide THEN {Not(P("b")), Cmp("==", P("e"), RedC), In(P("s"), Names), QAll("x", Cmp(">", X, IntC(0)), P("xs")), P("xs"), P("it"), P("os"),
